@@ -59,12 +59,24 @@ POOL = [
 POOL4 = [POOL.index("<{n}:str>"), POOL.index("-{n} <{n}:int>"), POOL.index("--flag{n}<{n}>"),
          POOL.index("<out|{n}$t{n}.txt>")]
 
-TYPE_WORDS = {"int": "int", "float": "float", "str": "str", "file": "file", "directory": "directory"}
+# further documented combinations, enumerated alone and next to every POOL token (space "extra" of C25)
+EXTRA = [
+    "<{n}:int?>",
+    "--rep{n} <{n}+>",
+    "--rep{n} <{n}:int*>",
+    "<out|{n}:image/png>",
+    "<out|{n}:file?>",
+]
+ALL_TOKENS = POOL + EXTRA
+
+TYPE_WORDS = {"int": "int", "float": "float", "str": "str", "file": "file", "directory": "directory",
+              "image/png": "png"}
+EXTENSIONS = {"png": ".png"}      # "based on its name and extension (if applicable)"
 
 
 def render(kinds):
     """-> template string"""
-    return " ".join([EXE] + [POOL[k].format(n=NAMES[i]) for i, k in enumerate(kinds)])
+    return " ".join([EXE] + [ALL_TOKENS[k].format(n=NAMES[i]) for i, k in enumerate(kinds)])
 
 
 def _conforms(type_, value):
@@ -114,7 +126,7 @@ def read_field(text, flag, glued):
         rec["type"] = "fsobject"
     rec["name"] = text
     if rec["output"] and "path_template" not in rec:
-        rec["path_template"] = text          # fsobject / file / directory have no extension to add
+        rec["path_template"] = text + EXTENSIONS.get(rec["type"], "")   # fsobject / file / directory have none
     if "default" in rec and rec["default"] not in (None, "[]") and not _conforms(rec["type"], rec["default"]):
         rec["ill_typed_default"] = True
     return rec
@@ -148,7 +160,7 @@ def argv_spec(rec):
         kind = "bool"
     elif rec["multi"]:
         kind = "multi"
-    elif rec["type"] in ("fsobject", "file", "directory"):
+    elif rec["type"] in ("fsobject", "file", "directory", "png"):
         kind = "file"
     else:
         kind = rec["type"]
